@@ -200,6 +200,9 @@ func runC11x(c c11Case, info *c11Info) *vstat.Failure {
 				case "varz":
 					w := httptest.NewRecorder()
 					sc.Exp.HandleVarz(w, httptest.NewRequest("GET", "/varz", nil))
+				case "varz-slow":
+					// a client that reads slowly: the export spans many reloads
+					sc.Exp.HandleVarz(&slowWriter{ResponseRecorder: httptest.NewRecorder(), d: 100 * time.Microsecond}, httptest.NewRequest("GET", "/varz", nil))
 				case "graphite":
 					w := httptest.NewRecorder()
 					sc.Exp.HandleGraphite(w, httptest.NewRequest("GET", "/graphite", nil))
@@ -217,6 +220,19 @@ func runC11x(c c11Case, info *c11Info) *vstat.Failure {
 					}()
 					ver++
 					_ = e.r.CompileAndRun(name(p), strings.NewReader(c11Source(p, 100+ver)))
+				case "store-replace":
+					// a reload as the store sees it: a metric of a program of its own
+					// (no VM writes to it) is replaced by a fresh one with the same name,
+					// type and source, again and again, while exports iterate the store.
+					// It shares its name with the running programs' counter.
+					m := metrics.NewMetric("lines_total", "z_"+tag+".mtail", metrics.Counter, metrics.Int)
+					m.SetSource("z:1:9")
+					if d, err := m.GetDatum(); err == nil {
+						datum.SetInt(d, int64(r), time.Unix(1, 0))
+					}
+					if err := e.store.Add(m); err != nil {
+						setFail(vstat.Failf("store-add-error", "%v", err))
+					}
 				case "marshal":
 					_, _ = e.store.MarshalJSON()
 				case "load-new":
@@ -286,7 +302,7 @@ func c11RunRaw(raw json.RawMessage) *vstat.Failure {
 	return nil
 }
 
-var c11Kinds = []string{"gc", "gc", "reload", "reload", "prom", "prom", "json", "varz", "graphite", "push-graphite", "push-statsd", "push-collectd", "marshal", "load-new", "load-new"}
+var c11Kinds = []string{"gc", "gc", "reload", "reload", "prom", "prom", "json", "varz", "graphite", "push-graphite", "push-statsd", "push-collectd", "marshal", "load-new", "load-new", "varz-slow", "store-replace", "store-replace"}
 
 func TestC11(t *testing.T) {
 	st := vstat.New("C11", "workload plans run under the race detector: 2-4 programs (scalar and dimensioned counters creating label values continuously, a limit, del, del-after, a histogram) fed a generated line stream while 3-8 concurrent actors with drawn start offsets, repetition counts and pauses run store GC, program reloads, unload+load, Prometheus gather, the JSON/varz/graphite handlers, Store.MarshalJSON and the three push formats; GOMAXPROCS drawn from {2,4,16}. Oracles: no race-detector report; the never-reloaded program's counter equals the number of matching lines; its exported value stays within [0, lines]; every scrape succeeds. non-trivial = a plan in which >= 3 kinds of actor overlapped with line processing; distinct by plan")
@@ -327,4 +343,16 @@ func TestC11(t *testing.T) {
 			st.Report(rt, f, c)
 		})
 	})
+}
+
+
+// slowWriter delays every write of a response.
+type slowWriter struct {
+	*httptest.ResponseRecorder
+	d time.Duration
+}
+
+func (w *slowWriter) Write(p []byte) (int, error) {
+	time.Sleep(w.d)
+	return w.ResponseRecorder.Write(p)
 }
